@@ -22,6 +22,8 @@ EVENTS = {
     'xfail': (0, 0, 0, 0),
     'uxsuccess': (0, 0, 0, 1),
     'sysexit': (0, 1, 0, 0),
+    'error_sig': (0, 1, 0, 0),
+    'cleanup_noncallable': (0, 1, 0, 0),
 }
 
 
